@@ -196,7 +196,8 @@ func (m FieldMap) GetTime(tag Tag) (t time.Time, err MessageRejectError) {
 	m.rwLock.RLock()
 	defer m.rwLock.RUnlock()
 
-	bytes, err := m.GetBytes(tag)
+	// (not GetBytes: taking the read lock a second time deadlocks against a writer that waits in between)
+	bytes, err := m.getBytesNoLock(tag)
 	if err != nil {
 		return
 	}
